@@ -150,6 +150,9 @@ macro_rules! battery {
                         let r3 = p(|| format!("{} {} {} {} {}", res(DateTime::from_ymdhms(d as i32, (f & 15) as u32, (e & 63) as u32, (cc & 31) as u32, (a & 63) as u32, (b & 63) as u32), g),
                             res(Offset::from_hms((f % 40) as i32, (e & 63) as u32, (a & 63) as u32), |o| format!("{:?}", o)), res(DateTime::from_hms(v, (e & 63) as u32, (a & 63) as u32), g),
                             res(Date::from_ymd(d as i32, (f & 15) as u32, (e & 63) as u32).and_then(|q| q.set_day_of_year(v % 400)), show_d), res(date(a).set_year(d as i32), show_d)));
+                        // constructors of Time with their error texts (the stated range is part of C15)
+                        let r3 = format!("{} {} {} {}", r3, res(Time::from_hms(v, (e & 63) as u32, (a & 63) as u32), show_t), res(Time::from_seconds(v), show_t),
+                            res(Time::from_nanos(if e % 3 == 0 { 86_400_000_000_000 + (d as u64 % 3) } else { (d as u64).wrapping_mul(1_000_003) }), show_t));
                         format!("{} || {} || {}", r, r2, r3)
                     }
                     "C11" => {
